@@ -395,6 +395,17 @@ Proof.
   exists (S f). destruct (ew_ok_cases t T) as [-> | ->]; ev; exact H.
 Qed.
 
+Lemma N_par x : validb x = true -> nolamb x = true -> PG x -> E0 x -> PG (EPar x).
+Proof.
+  intros V L HP HE _ atp r v r' Hc.
+  change (at_ HighestPrec (EPar x)) with (pr (EPar x)).
+  change (nat_ HighestPrec (EPar x)) with (norm (EPar x)) in Hc.
+  rewrite pr_par. rewrite norm_par in Hc.
+  destruct x; try (cbn [app]; rewrite <- app_assoc; cbn [app]; eapply paren_PG; eauto; fail).
+  (* a doubled parenthesis prints and reads as the inner one *)
+  apply (HP (or_intror (Z.le_refl 8)) atp r v r'). exact Hc.
+Qed.
+
 (* the argument loop of a call *)
 Lemma prl_one a : prl [a] = pr a.
 Proof. unfold prl. cbn [flat_map]. apply app_nil_r. Qed.
@@ -522,7 +533,7 @@ Proof.
   rewrite pr_bin, <- app_assoc. cbn [app].
   apply (HX p1 (prec op) atp _ v r'); [lia | zl | exact Kx | |].
   { destruct (binop_follow op (at_ (prec op + 1) y ++ r) B) as [S7 HP]. split; auto. rewrite HP. lia. }
-  destruct (HY (prec op + 1) (prec op + 1) false r (PE (nat_ (prec op + 1) y)) r) as [f1 H1]; [lia | zl | exact Ky | |].
+  destruct (HY (prec op + 1) (prec op + 1) false r (PE (nat_ (prec op + 1) y)) r) as [f1 H1]; [lia | zl | exact Ky | | |].
   { split; auto. intros. lia. }
   { exists 1%nat. apply binloop_stop; lia. }
   exists (S (f1 + f2)). rewrite binloop_op by (auto; lia).
@@ -606,10 +617,7 @@ Proof.
     apply from_BG; auto. intros. eapply N_bin; eauto.
   - (* EPar *) destruct (IH e) as (HPe & _ & _ & HEe); auto; try lia.
     apply from_PG; auto; try reflexivity; try (cbn [tlev]; lia).
-    destruct e; try (intros _ atp r v r' Hc; change (at_ HighestPrec (EPar ?x)) with (LP :: pr x ++ [RP]);
-                     cbn [app]; rewrite <- app_assoc; cbn [app]; eapply paren_PG; eauto; fail).
-    (* a doubled parenthesis prints and reads as the inner one *)
-    intros _ atp r v r' Hc. apply (HPe (or_intror ltac:(cbn [tlev]; lia)) atp r v r'). exact Hc.
+    now apply N_par.
   - (* ECall *) destruct (IH e) as (HPf & _); auto; try lia.
     apply from_PG; auto; try reflexivity; try (cbn [tlev]; lia).
     apply N_call; auto.
@@ -638,4 +646,204 @@ Theorem roundtrip_exists e : validb e = true -> nolamb e = true -> posokb e = tr
 Proof.
   intros V L K. destruct (all_levels (sz e) e (le_n _) V L K) as (_ & _ & _ & HE).
   destruct (HE [] eq_refl) as [f Hf]. rewrite app_nil_r in Hf. eauto.
+Qed.
+
+(* ------------------------------------------------------------------ norm, strip, printing again *)
+Lemma norm_head : forall n e, (sz e <= n)%nat -> plev (norm e) = plev e /\ is_par (norm e) = is_par e.
+Proof.
+  induction n as [|n IH]; intros e Hs. { destruct e; cbn [sz] in Hs; lia. }
+  destruct e; try (split; reflexivity).
+  cbn [sz] in Hs. rewrite norm_par. destruct e; try (split; reflexivity).
+  destruct (IH (EPar e)) as [A B]; [cbn [sz] in *; lia|]. split; auto.
+Qed.
+
+Lemma strip_nat p x : strip (nat_ p x) = strip (norm x).
+Proof. unfold nat_. destruct (plev x <? p); reflexivity. Qed.
+
+Lemma strip_norm : forall n e, (sz e <= n)%nat -> strip (norm e) = strip e.
+Proof.
+  induction n as [|n IH]; intros e Hs. { destruct e; cbn [sz] in Hs; lia. }
+  destruct e; cbn [sz] in Hs; try reflexivity.
+  - rewrite norm_un. cbn [strip]. rewrite strip_nat, IH by lia. reflexivity.
+  - change (norm (EStar e)) with (EStar (norm e)). cbn [strip]. rewrite IH by lia. reflexivity.
+  - rewrite norm_bin. cbn [strip]. rewrite !strip_nat, !IH by lia. reflexivity.
+  - rewrite norm_par. destruct e; cbn [strip]; try (rewrite IH by (cbn [sz] in *; lia); reflexivity).
+  - rewrite norm_call. cbn [strip]. rewrite strip_nat, IH by lia. f_equal.
+    rewrite map_map. apply map_ext_in. intros a Ha. apply IH. pose proof (In_szl a args Ha). unfold szl in *. lia.
+  - rewrite norm_idx. cbn [strip]. rewrite strip_nat, !IH by lia. reflexivity.
+  - rewrite norm_sel. cbn [strip]. rewrite strip_nat, IH by lia. reflexivity.
+  - change (norm (EEw t e)) with (EEw t (norm e)). cbn [strip]. rewrite IH by lia. reflexivity.
+  - change (norm (EEwd t e1 e2)) with (EEwd t (norm e1) (norm e2)). cbn [strip]. rewrite !IH by lia. reflexivity.
+  - change (norm (ELam lhs lp rhs rp)) with (ELam lhs lp (map norm rhs) rp). cbn [strip]. f_equal.
+    rewrite map_map. apply map_ext_in. intros a Ha. apply IH. pose proof (In_szl a rhs Ha). unfold szl in *. lia.
+Qed.
+
+Lemma map_id_in {A} (f : A -> A) l : (forall a, In a l -> f a = a) -> map f l = l.
+Proof. induction l as [|a l IH]; cbn [map]; intros H; [reflexivity|]. rewrite H, IH; auto; [intros; apply H; now right|now left]. Qed.
+
+Lemma strip_id : forall n e, (sz e <= n)%nat -> noparb e = true -> strip e = e.
+Proof.
+  induction n as [|n IH]; intros e Hs N. { destruct e; cbn [sz] in Hs; lia. }
+  destruct e; cbn [sz] in Hs; cbn [noparb] in N; bsplit; try reflexivity; try discriminate; cbn [strip];
+    rewrite ?IH by (auto; lia); try reflexivity.
+  - f_equal. apply map_id_in. intros a Ha. apply IH; [pose proof (In_szl a args Ha); unfold szl in *; lia|].
+    eapply forallb_In; eauto.
+  - f_equal. apply map_id_in. intros a Ha. apply IH; [pose proof (In_szl a rhs Ha); unfold szl in *; lia|].
+    eapply forallb_In; eauto.
+Qed.
+
+(* a tree without parentheses is recovered from the re-parsed one by dropping the printer's parentheses *)
+Lemma strip_norm_nopar e : noparb e = true -> strip (norm e) = e.
+Proof. intros N. rewrite (strip_norm (sz e)) by lia. apply (strip_id (sz e)); auto. Qed.
+
+Lemma nat_tight p x : tight p x = true -> nat_ p x = norm x.
+Proof. unfold tight, nat_. destruct (plev x <? p); [discriminate|reflexivity]. Qed.
+
+(* a tree that already has its parentheses (what the parser returns) is re-read as it is *)
+Lemma norm_id : forall n e, (sz e <= n)%nat -> noaddb e = true -> norm e = e.
+Proof.
+  induction n as [|n IH]; intros e Hs N. { destruct e; cbn [sz] in Hs; lia. }
+  destruct e; cbn [sz] in Hs; cbn [noaddb] in N; bsplit; try reflexivity.
+  - rewrite norm_un, nat_tight, IH by (auto; lia). reflexivity.
+  - change (norm (EStar e)) with (EStar (norm e)). rewrite IH by (auto; lia). reflexivity.
+  - rewrite norm_bin, !nat_tight, !IH by (auto; lia). reflexivity.
+  - rewrite norm_par. destruct e; try discriminate; rewrite IH by (auto; cbn [sz] in *; lia); reflexivity.
+  - rewrite norm_call, nat_tight, IH by (auto; lia). f_equal. apply map_id_in. intros a Ha.
+    apply IH; [pose proof (In_szl a args Ha); unfold szl in *; lia|]. eapply forallb_In; eauto.
+  - rewrite norm_idx, nat_tight, !IH by (auto; lia). reflexivity.
+  - rewrite norm_sel, nat_tight, IH by (auto; lia). reflexivity.
+  - change (norm (EEw t e)) with (EEw t (norm e)). rewrite IH by (auto; lia). reflexivity.
+  - change (norm (EEwd t e1 e2)) with (EEwd t (norm e1) (norm e2)). rewrite !IH by (auto; lia). reflexivity.
+  - change (norm (ELam lhs lp rhs rp)) with (ELam lhs lp (map norm rhs) rp). f_equal. apply map_id_in. intros a Ha.
+    apply IH; [pose proof (In_szl a rhs Ha); unfold szl in *; lia|]. eapply forallb_In; eauto.
+Qed.
+
+(* printing the re-read tree gives the same tokens again *)
+Lemma pr_par_not x : is_par x = false -> pr (EPar x) = LP :: pr x ++ [RP].
+Proof. destruct x; cbn [is_par]; intros; try discriminate; reflexivity. Qed.
+
+Lemma at_nat p x : p <= 8 -> pr (norm x) = pr x -> at_ p (nat_ p x) = at_ p x.
+Proof.
+  intros Hp H. destruct (norm_head (sz x) x (le_n _)) as [Hl Hi].
+  unfold nat_, at_ at 2. destruct (plev x <? p) eqn:E.
+  - unfold at_. change (plev (EPar (norm x))) with (HighestPrec + 1).
+    rewrite (proj2 (Z.ltb_ge (HighestPrec + 1) p)) by zl.
+    rewrite pr_par_not, H; [reflexivity|]. rewrite Hi.
+    destruct x; try reflexivity. cbn [plev] in E. apply Z.ltb_lt in E. zl.
+  - unfold at_. rewrite Hl, E. exact H.
+Qed.
+
+Lemma flat_map_ext_in {A B} (f g : A -> list B) l : (forall a, In a l -> f a = g a) -> flat_map f l = flat_map g l.
+Proof. induction l as [|a l IH]; cbn [flat_map]; intros H; [reflexivity|]. rewrite H, IH; auto; [intros; apply H; now right|now left]. Qed.
+
+Lemma prl_map (g : expr -> expr) l : (forall a, In a l -> pr (g a) = pr a) -> prl (map g l) = prl l.
+Proof.
+  destruct l as [|a l]; [reflexivity|]. intros H. unfold prl. cbn [map]. rewrite H by now left. f_equal.
+  rewrite flat_map_concat_map, map_map, <- flat_map_concat_map. apply flat_map_ext_in.
+  intros x Hx. rewrite H; auto. now right.
+Qed.
+
+Theorem pr_norm : forall n e, (sz e <= n)%nat -> validb e = true -> pr (norm e) = pr e.
+Proof.
+  induction n as [|n IH]; intros e Hs V. { destruct e; cbn [sz] in Hs; lia. }
+  destruct e; cbn [sz] in Hs; cbn [validb] in V; bsplit; try reflexivity.
+  - rewrite norm_un, !pr_un, at_nat; auto; try zl. apply IH; auto; lia.
+  - change (norm (EStar e)) with (EStar (norm e)). rewrite !pr_star, IH by (auto; lia). reflexivity.
+  - match goal with H : is_binop _ = true |- _ => apply binop_prec in H end.
+    rewrite norm_bin, !pr_bin, !at_nat; auto; try lia; apply IH; auto; lia.
+  - rewrite norm_par. destruct (is_par e) eqn:Ep.
+    + destruct e; try discriminate. rewrite IH by (auto; cbn [sz] in *; lia). reflexivity.
+    + assert (En : norm (EPar e) = EPar (norm e)) by (destruct e; try discriminate; reflexivity).
+      destruct e; try discriminate; rewrite !pr_par_not, IH; auto; try (cbn [sz] in *; lia);
+        destruct (norm_head (sz _) _ (le_n _)) as [_ ->]; reflexivity.
+  - rewrite norm_call, !pr_call, at_nat, prl_map; auto; try zl; [|apply IH; auto; lia].
+    intros a Ha. apply IH; [pose proof (In_szl a args Ha); unfold szl in *; lia|]. eapply forallb_In; eauto.
+  - rewrite norm_idx, !pr_idx, at_nat, (IH e2); auto; try zl; try lia. apply IH; auto; lia.
+  - rewrite norm_sel, !pr_sel, at_nat; auto; try zl. apply IH; auto; lia.
+  - change (norm (EEw t e)) with (EEw t (norm e)). rewrite !pr_ew, IH by (auto; lia). reflexivity.
+  - change (norm (EEwd t e1 e2)) with (EEwd t (norm e1) (norm e2)). rewrite !pr_ewd, !IH by (auto; lia). reflexivity.
+  - change (norm (ELam lhs lp rhs rp)) with (ELam lhs lp (map norm rhs) rp).
+    assert (HR : forall a, In a rhs -> pr (norm a) = pr a).
+    { intros a Ha. apply IH; [pose proof (In_szl a rhs Ha); unfold szl in *; lia|]. eapply forallb_In; eauto. }
+    assert (E1 : prl (map norm rhs) = prl rhs) by (apply prl_map; auto).
+    assert (E2 : match map norm rhs with a :: _ => pr a | [] => [] end = match rhs with a :: _ => pr a | [] => [] end).
+    { destruct rhs as [|a t]; [reflexivity|]. cbn [map]. apply HR. now left. }
+    change (pr (ELam lhs lp (map norm rhs) rp)) with
+      ((if lp then LP :: match lhs with [] => [] | a :: t => TId a :: flat_map (fun s => [COMMA; TId s]) t end ++ [RP]
+        else match lhs with [] => [] | a :: _ => [TId a] end) ++
+       TOp xgo_DRARROW :: (if rp then LP :: prl (map norm rhs) ++ [RP] else match map norm rhs with a :: _ => pr a | [] => [] end)).
+    rewrite E1, E2. reflexivity.
+Qed.
+
+(* ------------------------------------------------------------------ the result does not depend on the fuel *)
+Lemma P_stable f f' s ts : (f <= f')%nat -> P f s ts <> RFuel -> P f' s ts = P f s ts.
+Proof. induction 1; auto. intros H0. rewrite P_mono; auto. rewrite IHle; auto. Qed.
+
+Lemma parse_expr_fuel f ts : parse_expr f ts = RFuel <-> P f SExpr ts = RFuel.
+Proof.
+  unfold parse_expr. destruct (P f SExpr ts) as [[e|? ?] [|? ?]| | |]; split; intros; try discriminate; auto.
+Qed.
+
+Lemma parse_expr_stable f f' ts : parse_expr f ts <> RFuel -> parse_expr f' ts <> RFuel -> parse_expr f ts = parse_expr f' ts.
+Proof.
+  intros H H'. rewrite parse_expr_fuel in H, H'. unfold parse_expr.
+  destruct (Nat.le_ge_cases f f') as [L|L].
+  - rewrite (P_stable f f'); auto.
+  - rewrite (P_stable f' f); auto.
+Qed.
+
+Theorem roundtrip e : validb e = true -> nolamb e = true -> posokb e = true ->
+  exists f, parse_expr f (pr e) = ROk (PE (norm e)) [].
+Proof.
+  intros V L K. destruct (roundtrip_exists e V L K) as [f Hf]. exists f. unfold parse_expr. rewrite Hf. reflexivity.
+Qed.
+
+(* a witness computed with one amount of fuel decides the question for every amount *)
+Lemma refute_by_witness F ts e0 x :
+  parse_expr F ts = x -> x <> RFuel ->
+  (forall e', x = ROk (PE e') [] -> strip e' <> e0) ->
+  forall f e', parse_expr f ts = ROk (PE e') [] -> strip e' <> e0.
+Proof.
+  intros HF Hx Hn f e' Hf. apply Hn. rewrite <- HF, <- Hf. symmetry. apply parse_expr_stable.
+  - rewrite Hf. discriminate.
+  - rewrite HF. exact Hx.
+Qed.
+
+(* norm keeps well-formedness, hence printing is stable under a second normalisation *)
+Lemma validb_nat p x : validb (norm x) = true -> validb (nat_ p x) = true.
+Proof. unfold nat_. destruct (plev x <? p); auto. Qed.
+
+Lemma validb_norm : forall n x, (sz x <= n)%nat -> validb x = true -> validb (norm x) = true.
+Proof.
+  induction n as [|n IH]; intros x Hs Vx. { destruct x; cbn [sz] in Hs; lia. }
+  destruct x; cbn [sz] in Hs; cbn [validb] in Vx; bsplit; try reflexivity.
+  - rewrite norm_un. cbn [validb]. rewrite validb_nat by (apply IH; auto; lia).
+    match goal with B : un_ok op = true |- _ => rewrite B end. reflexivity.
+  - change (norm (EStar x)) with (EStar (norm x)). cbn [validb]. apply IH; auto; lia.
+  - rewrite norm_bin. cbn [validb]. rewrite !validb_nat by (apply IH; auto; lia).
+    match goal with B : is_binop op = true |- _ => rewrite B end. reflexivity.
+  - rewrite norm_par. destruct x; cbn [validb]; try (apply IH; auto; cbn [sz] in *; lia).
+  - rewrite norm_call. cbn [validb]. rewrite validb_nat by (apply IH; auto; lia). cbn [andb].
+    assert (Q : forallb validb (map norm args) = true).
+    { rewrite forallb_forall. intros a Ha. apply in_map_iff in Ha as (a0 & <- & Ha0).
+      apply IH; [pose proof (In_szl a0 args Ha0); unfold szl in *; lia|eapply forallb_In; eauto]. }
+    rewrite Q. cbn [andb]. destruct args; cbn [map is_nil] in *; auto.
+  - rewrite norm_idx. cbn [validb]. rewrite validb_nat by (apply IH; auto; lia). rewrite IH by (auto; lia). reflexivity.
+  - rewrite norm_sel. cbn [validb]. apply validb_nat. apply IH; auto; lia.
+  - change (norm (EEw t x)) with (EEw t (norm x)). cbn [validb]. rewrite IH by (auto; lia).
+    match goal with B : ew_ok t = true |- _ => rewrite B end. reflexivity.
+  - change (norm (EEwd t x1 x2)) with (EEwd t (norm x1) (norm x2)). cbn [validb]. rewrite !IH by (auto; lia).
+    match goal with B : ew_ok t = true |- _ => rewrite B end. reflexivity.
+  - change (norm (ELam lhs lp rhs rp)) with (ELam lhs lp (map norm rhs) rp). cbn [validb]. rewrite map_length.
+    assert (Q : forallb validb (map norm rhs) = true).
+    { rewrite forallb_forall. intros a Ha. apply in_map_iff in Ha as (a0 & <- & Ha0).
+      apply IH; [pose proof (In_szl a0 rhs Ha0); unfold szl in *; lia|eapply forallb_In; eauto]. }
+    rewrite Q. destruct rhs; cbn [map is_nil negb] in *; try discriminate.
+    repeat match goal with B : _ = true |- _ => rewrite B; clear B end. reflexivity.
+Qed.
+
+Theorem norm_print_stable e : validb e = true -> pr (norm (norm e)) = pr (norm e) /\ pr (norm e) = pr e.
+Proof.
+  intros V. split; [|apply (pr_norm (sz e)); auto].
+  apply (pr_norm (sz (norm e))); auto. apply (validb_norm (sz e)); auto.
 Qed.
